@@ -89,7 +89,42 @@ if mode == 'after':
         outcome(lambda: copy.deepcopy(m))
     for _ in range(3):
         failing_history()
+    # ... and the error paths of OTHER instances of every class: a misspelt name read, assigned and given as a keyword
+    for n in XE.__all__:
+        c = getattr(XE, n)
+        if not (isinstance(c, type) and issubclass(c, XE.XMLElement)) or c is XE.XMLElement:
+            continue
+        try:
+            e = fresh(c)
+        except Exception:
+            continue
+        outcome(lambda: e.no_such_name_)
+        outcome(lambda: setattr(e, 'no_such_name_', 3))
+        outcome(lambda: c(no_such_name_=1))
 out = []
+
+
+def message(f):
+    try:
+        with contextlib.redirect_stdout(io.StringIO()), contextlib.redirect_stderr(io.StringIO()):
+            f()
+        return 'ok'
+    except Exception as e:
+        m = str(e)
+        return type(e).__name__ + ':' + (m if len(m) < 300 else m[:200] + '...' + str(len(m)) + ':' + str(sum(map(ord, m))))
+
+
+# what a fresh element SAYS when it refuses (which required attribute is missing, which names are allowed) is part of its behaviour too
+for n in XE.__all__:
+    c = getattr(XE, n)
+    if not (isinstance(c, type) and issubclass(c, XE.XMLElement)) or c is XE.XMLElement:
+        continue
+    try:
+        if not c.TYPE.get_xsd_tree().is_complex_type or len([a for a in c.TYPE.get_xsd_attributes() if a.name and a.is_required]) < 1:
+            continue
+    except Exception:
+        continue
+    out.append(['<message>', n, '', '', message(lambda: c(xsd_check=True)._check_required_attributes()), True, message(lambda: c(no_such_name_=1))])
 for n, key, v, alt in plan:
     e = fresh(getattr(XE, n))
     o1 = outcome(lambda: setattr(e, key, alt))
